@@ -4,10 +4,6 @@ From Coq Require Import List Arith Bool Lia.
 From PG Require Import Base.ListSet Base.Closure Base.Sx Graph.MGraph Graph.MSep C06.Model.
 Import ListNotations.
 
-(* all ordered pairs of distinct positions of a list *)
-Definition opairs (l : list nat) : list (nat * nat) :=
-  flat_map (fun a => map (pair a) (filter (fun b => negb (Nat.eqb a b)) l)) l.
-
 (* is_maximal: no inducing path between any non-adjacent pair.  The code visits every unordered pair once, in the
    direction set iteration yields first; the model looks at both directions (the search is symmetric when complete). *)
 Definition is_maximal_model (g : mgraph) : bool :=
